@@ -193,6 +193,13 @@ def _reach_sessions(ctx):
     for sizes in orders:
         ps = [ser.pos_str(rng.choice(td.start_positions(rng, n, 3, custom_prob=0.3))) for n in sizes]
         out.append({"positions": ps, "seed": rng.randrange(1 << 30)})
+    # constructed roots built around the rarely reached rules (stacks taller than the board, a
+    # capstone on a stack next to a wall, an empty flat reserve), several per engine
+    for sizes in ([[3, 4, 5, 6], [6, 5, 4, 3], [5, 5, 3, 3], [4, 6, 4, 6]] * (3 if ctx.thorough else 1)):
+        ps = []
+        for n in sizes:
+            ps += [ser.pos_str(p) for _, p in td.tactical_positions(rng, n, 2)]
+        out.append({"positions": ps, "seed": rng.randrange(1 << 30)})
     return out
 
 
